@@ -13,5 +13,67 @@ OUTSIDE = ['account bytes unchanged on failure (runtime guarantee, not program c
            'init-constraint instructions are checked up to the first System-program CPI']
 
 
+# instruction -> harnesses that decide its authority / account constraints; None = no privileged authority by design (anyone may call it; token movements
+# are authorised by the SPL token program through the token accounts' owner); 'GAP: ...' = known, documented gap
+COVERAGE = {
+    'initialize_config': ['c04_initialize_config'], 'initialize_fee_tier': ['c04_initialize_fee_tier'], 'initialize_adaptive_fee_tier': ['c04_initialize_adaptive_fee_tier'],
+    'initialize_config_extension': ['c04_initialize_config_extension'], 'initialize_token_badge': ['c04_initialize_token_badge'], 'delete_token_badge': ['c04_delete_token_badge'],
+    'set_token_badge_attribute': ['c04_set_token_badge_attribute'], 'set_token_badge_authority': ['c04_set_token_badge_authority'],
+    'set_config_extension_authority': ['c04_set_config_extension_authority'], 'set_config_feature_flag': ['c04_set_config_feature_flag'],
+    'set_fee_rate': ['c04_set_fee_rate'], 'set_protocol_fee_rate': ['c04_set_protocol_fee_rate'], 'set_default_fee_rate': ['c04_set_default_fee_rate'],
+    'set_default_protocol_fee_rate': ['c04_set_default_protocol_fee_rate'], 'set_fee_authority': ['c04_set_fee_authority'],
+    'set_collect_protocol_fees_authority': ['c04_set_collect_protocol_fees_authority'], 'set_reward_authority': ['c04_set_reward_authority'],
+    'set_reward_authority_by_super_authority': ['c04_set_reward_authority_by_super_authority'], 'set_reward_emissions_super_authority': ['c04_set_reward_emissions_super_authority'],
+    'set_reward_emissions': ['c04_set_reward_emissions'], 'set_reward_emissions_v2': ['c04_set_reward_emissions_v2'], 'initialize_reward_v2': ['c04_initialize_reward_v2'],
+    'initialize_reward': 'GAP: the 8-account struct with token-account init does not finish in 900 s (the v2 twin, same authority clause, is covered)',
+    'set_default_base_fee_rate': ['c04_set_default_base_fee_rate'], 'set_delegated_fee_authority': ['c04_set_delegated_fee_authority'],
+    'set_initialize_pool_authority': ['c04_set_initialize_pool_authority'], 'set_preset_adaptive_fee_constants': ['c04_set_preset_adaptive_fee_constants'],
+    'set_fee_rate_by_delegated_fee_authority': ['c04_set_fee_rate_by_delegated_fee_authority'], 'set_adaptive_fee_constants': ['c04_set_adaptive_fee_constants'],
+    'initialize_pool_with_adaptive_fee': ['c04_initialize_pool_authority_rule'],
+    'migrate_repurpose_reward_authority_space': ['c04_migrate_repurpose_reward_authority_space'],
+    'collect_fees': ['c15_collect_fees'], 'collect_fees_v2': ['c15_collect_fees_v2'], 'collect_reward': ['c15_collect_reward'], 'collect_reward_v2': ['c15_collect_reward_v2'],
+    'collect_protocol_fees': ['c15_collect_protocol_fees'], 'collect_protocol_fees_v2': ['c15_collect_protocol_fees_v2'],
+    'close_position': ['c15_close_position'], 'close_position_with_token_extensions': ['c15_close_position_with_token_extensions'],
+    'open_bundled_position': ['c15_open_bundled_position'], 'close_bundled_position': ['c15_close_bundled_position'], 'delete_position_bundle': ['c15_delete_position_bundle'],
+    'lock_position': ['c15_lock_position'], 'reset_position_range': ['c15_reset_position_range'], 'transfer_locked_position': ['c15_transfer_locked_position'],
+    'increase_liquidity': ['c04p_increase_liquidity_prefix'], 'decrease_liquidity': ['c04p_decrease_liquidity_prefix'],
+    'increase_liquidity_v2': ['c04p_increase_liquidity_v2_prefix'], 'decrease_liquidity_v2': ['c04p_decrease_liquidity_v2_prefix'],
+    'increase_liquidity_by_token_amounts_v2': ['c04p_increase_liquidity_by_token_amounts_v2_prefix'], 'reposition_liquidity_v2': ['c04p_reposition_liquidity_v2_prefix'],
+    'swap': ['c15_swap_accounts'], 'swap_v2': ['c15_swap_v2_accounts'], 'two_hop_swap': ['c15_two_hop_swap'], 'two_hop_swap_v2': ['c15_two_hop_swap_v2'],
+    'update_fees_and_rewards': ['c15_update_fees_and_rewards_accounts'],
+    'initialize_pool': None, 'initialize_pool_v2': None, 'initialize_tick_array': None, 'initialize_dynamic_tick_array': None,
+    'open_position': None, 'open_position_with_metadata': None, 'open_position_with_token_extensions': None,
+    'initialize_position_bundle': None, 'initialize_position_bundle_with_metadata': None, 'idl_include': None,
+}
+
+
+def coverage_check(ctx, files):
+    """every instruction of the program (Anchor dispatch table and Pinocchio table) is mapped to a harness that exists, or is declared unprivileged / a known gap;
+    an instruction that appears in the source but not in the table is a coverage gap (machinery fault), so a new instruction cannot silently escape"""
+    import os, re
+    from vlib import kani as K, mirsmt as M
+    src = open(os.path.join(M.REPO, 'programs/whirlpool/src/lib.rs')).read()
+    body = src[src.index('pub mod whirlpool'):]
+    names = re.findall(r'\n    pub fn (\w+)\s*[<(]', body)
+    ep = open(os.path.join(M.REPO, 'programs/whirlpool/src/entrypoint.rs')).read()
+    pino = re.findall(r'pinocchio::instructions::(\w+)::handler', ep)
+    have = {h.name for h in K.parse_harnesses(files)}
+    missing, gaps = [], []
+    for n in sorted(set(names) | set(pino)):
+        if n not in COVERAGE: missing.append(n + ' (not in the coverage table)'); continue
+        m = COVERAGE[n]
+        if m is None: continue
+        if isinstance(m, str): gaps.append(f'{n}: {m}'); continue
+        for h in m:
+            if h not in have: missing.append(f'{n} -> harness {h} not found')
+    ctx.extra['instruction_coverage'] = {'instructions': len(set(names) | set(pino)), 'pinocchio': sorted(set(pino)), 'known_gaps': gaps, 'unprivileged': sorted(k for k, v in COVERAGE.items() if v is None)}
+    if missing:
+        ctx.add('K:coverage_table', 'K', 'fault', 0, 'instructions without a harness: ' + '; '.join(missing), False)
+    else:
+        ctx.add('K:coverage_table', 'K', 'discharged', 0, f'{len(names)} Anchor + {len(pino)} Pinocchio instructions mapped', False)
+
+
 def run(ctx):
-    ctx.run_kani(['c04.rs', 'c04p.rs', 'c15.rs'])
+    files = ['c04.rs', 'c04p.rs', 'c15.rs']
+    if ctx.only is None: coverage_check(ctx, files)
+    ctx.run_kani(files)
